@@ -66,6 +66,12 @@ MCInit ==
     \E sse \in (IF iface = "asgi" THEN SseScripts ELSE {NoSse}), cl \in PresetCLs, ct \in BOOLEAN :
        LET b == Case(iface, code, form, method, text, data, media, st, sse, cl, ct, "none", 0)
        IN  /\ (\E i \in DOMAIN st[2] : st[2][i] = -1) => iface = "asgi"      \* on WSGI every block is bytes
+           \* thinner cross product where a dimension cannot matter much: streams with None / empty items
+           \* only where a stream can be reached (no text, no data); the whole set of emitter scripts only
+           \* without a stream, one script with pings in a row together with every stream
+           /\ (\E i \in DOMAIN st[2] : st[2][i] <= 0) => (text = -1 /\ data = -1)
+           /\ (sse # NoSse /\ st[1] # "none") => sse = <<1, 0, 0, 1>>
+           /\ (sse \notin {NoSse, <<1, 1>>, <<1, 0, 0, 1>>}) => data = -1
            /\ (Tier = "quick" /\ sse # NoSse) => st[1] = "none"          \* quick tier: thinner cross product
            /\ (Tier = "quick" /\ iface = "wsgifw") => st[1] = "file"
            /\ \E f \in (IF FaultBase(b) THEN FaultsOf(b) ELSE {<<"none", 0>>})
